@@ -38,6 +38,7 @@ def run(prog, rep, tier):
         r1.note("abstract interpreter not available in this build")
     r2 = rep.rule("R14.2", "mutations of existing PolicyTable entries are dominated by an in-use scan")
     check_in_use(prog, r2)
+    check_both_directions(prog, r2)
     r3 = rep.rule("R14.3", "statement / policy / assignment chaining")
     check_chaining(prog, r3)
     r4 = rep.rule("R14.4", "MatchOption coverage per set-typed condition")
@@ -296,6 +297,35 @@ def _mentions_pass(e):
         any(isinstance(x, tuple) and x and x[0] == "agg" and x[2] == "Pass" for x in walk(e))
 
 
+def check_both_directions(prog, r):
+    """Whatever decides "still referenced" must look at the import and the export side: a function of PolicyTable that
+    reads one of the two global assignment slots without being told a direction must read the other one as well."""
+    n = 0
+    for k in crate_fns(prog, "rustybgp_table"):
+        ix = prog.ix[k]
+        if ix["kind"] not in ("fn", "method") or not ix["name"].startswith("rustybgp_table::policy::PolicyTable::"):
+            continue
+        toks = set()
+        for kk in prog.with_closures(k):
+            toks |= fn_tokens(prog, kk, depth=0)
+        imp, exp = "field:assignment_import" in toks, "field:assignment_export" in toks
+        if not (imp or exp):
+            continue
+        fv = view(prog, k)
+        # a PolicyDirection parameter / match selects one slot legitimately
+        directed = any("PolicyDirection" in t for t in fv.f["locals"][1:fv.f["argc"] + 1]) or any(t.startswith("discr:") and "PolicyDirection" in t for t in toks)
+        n += 1
+        r.analysed(ix["name"])
+        if imp and exp:
+            r.ok("%s reads both global assignment slots" % short(ix["name"]))
+        elif directed:
+            r.ok("%s selects the slot by PolicyDirection" % short(ix["name"]))
+        else:
+            r.fail(ix["name"], "one-direction-only", "%s consults only assignment_%s: a policy (and through it its statements and sets) referenced by the other global assignment is treated as unused and can be deleted or rebuilt"
+                   % (short(ix["name"]), "import" if imp else "export"), fv.loc())
+    r.floor("PolicyTable functions reading the global assignments", n, 3)
+
+
 # ------------------------------------------------------------------------------------------ R14.4
 OPTS = {"Any", "All", "Invert"}
 
@@ -400,6 +430,45 @@ def check_prefix_lookup(prog, r):
                            "specific entry also covers the address, and an entry more specific than the route can match it", fv.loc(bi))
                 elif meth in ("matches", "iter", "matches_mut"):
                     r.ok("prefix-set lookup with %s (%s)" % (meth, fam))
+                    # the per-entry test: entry covers the route (entry length <= route length) and the route's length lies
+                    # in [min_length, max_length] -- three comparisons in the closure the candidates are filtered with
+                    dest = t["dest"]["l"]
+                    clos = None
+                    for b2, t2 in fv.calls(re.compile(r".*Iterator::(any|find|filter|all)$")):
+                        if b2 in fv.reach_after(bi) | {t.get("to")}:
+                            for a in t2["args"]:
+                                p = a.get("m") or a.get("c")
+                                if p and not p.get("p") and "{closure@" in fv.f["locals"][p["l"]]:
+                                    for b3, si, s3 in fv.defs().get(p["l"], []):
+                                        if si != "t" and s3["rv"]["r"] == "agg" and s3["rv"].get("k") == "closure":
+                                            clos = s3["rv"]["def"]
+                    if not clos:
+                        r.unanalysable("prefix-set lookup (%s): the closure that tests the candidates was not found" % fam, fv.loc(bi))
+                        continue
+                    cv = view(prog, clos)
+                    crend = Renderer(cv, depth=10)
+                    have = {"min_length": False, "max_length": False, "entry-length": False}
+                    for cb in sorted(cv.live):
+                        for s4 in cv.blocks[cb]["s"]:
+                            rv = s4.get("rv")
+                            if rv and rv["r"] == "bin" and rv["op"] in ("Le", "Lt", "Ge", "Gt"):
+                                e = crend.rvalue(rv, 10)
+                                fs, vs = set(expr_fields(e)), set(expr_vars(e))
+                                if "mask" not in fs and "mask" not in vs:
+                                    continue
+                                if "min_length" in fs:
+                                    have["min_length"] = True
+                                elif "max_length" in fs:
+                                    have["max_length"] = True
+                                else:
+                                    have["entry-length"] = True
+                    miss = sorted(k for k, v in have.items() if not v)
+                    if miss:
+                        r.fail("rustybgp_table::policy::Condition::evalute", "prefix-entry-test:%s:%s" % (fam, "+".join(miss)),
+                               "a prefix-set entry is accepted without comparing the route's length with %s: an entry `P/len min..max` must cover the route (len <= route length) "
+                               "and min <= route length <= max" % ", ".join(miss), cv.loc())
+                    else:
+                        r.ok("prefix-set entry test (%s): entry length <= route length, min_length <= route length <= max_length" % fam)
                 else:
                     r.unanalysable("prefix-set lookup uses unmodelled %s" % names[0], fv.loc(bi))
     r.floor("prefix-set lookups in Condition::evalute", n, 2)
